@@ -587,6 +587,7 @@ static void run_seg(void)
 		char nm[64]; snprintf(nm, sizeof nm, "%s_%s", algs[fams[fi].alg].name, fams[fi].name);
 		if (vk_only && strcmp(vk_only, nm) && strcmp(vk_only, algs[fams[fi].alg].name)) continue;
 		if (item++ % vk_nshards != vk_shard) continue;
+		if (pair_mode && !vk_thorough && (occ == 1 || occ == 2)) continue;      /* paired mode runs every stream twice: alone and lanes-1 only */
 		if (!setup_instance(&fams[fi])) continue;
 		free(pre_img); pre_img = malloc(arena_size);
 		unsigned B = A->block, maxl = 2 * B + 1;
